@@ -233,9 +233,7 @@ def exactness(rep, parsed):
     n = 0
     for ctx, (kind, o) in explore(body_fn):
         n += 1
-        if kind == "exc":
-            from engine.symex import Unsupported
-
+        if kind in ("exc", "unsupported"):
             r = {"status": "unknown", "backend": "symex", "time_s": 0, "reason": repr(o)}
             rep.obligation(f"getBH_level2.restore-exact@path{n}", r, fn, "exceptional")
             continue
@@ -260,7 +258,11 @@ def wrapper_writes(rep, name):
     rep.function(fn)
     fails = []
     for f in "BHJM":
-        for i, p in enumerate(sp.run(f), 1):
+        paths = sp.run(f)
+        from contracts.bhjm import report_problems
+
+        report_problems(rep, sp, f"{name}.{f}", fn["function"])
+        for i, p in enumerate(paths, 1):
             if "out" not in p:
                 continue
             ok = not p["writes"]
